@@ -219,6 +219,7 @@ class ForeignRun(FsRun):
     def __init__(self, case):
         super().__init__(case)
         self.os_kind = case["os"]
+        self.created_inodes = set()
         self.k32 = None
         self.fse = None
 
@@ -378,7 +379,14 @@ class ForeignRun(FsRun):
 
         def rec(p, flags, kf=None):
             if fm.is_under(p, "root"):
-                fse.record(absp(p), inodes[p], flags | (kf if kf is not None else kindflag(p)))
+                ino = inodes[p]
+                if flags & F["created"]:
+                    self.created_inodes.add(ino)
+                elif self.case.get("sticky_created") and ino in self.created_inodes:
+                    # "Some events will have a spurious is_created flag set, coalesced from an already emitted and
+                    # processed CreatedEvent" (comment in fsevents.py): sticky flags of an item seen before
+                    flags |= F["created"]
+                fse.record(absp(p), ino, flags | (kf if kf is not None else kindflag(p)))
 
         if k == "mkfile":
             rec(op[1], F["created"], F["file"])
@@ -468,7 +476,7 @@ class C20(Scenario):
     components = {"real": ["watchdog.observers.read_directory_changes.WindowsApiEmitter", "watchdog.observers.winapi (read_events, _parse_event_buffer, deleted-root detection)", "watchdog.observers.fsevents.FSEventsEmitter",
                            "watchdog.events sub-event generators", "watchdog.observers.api"],
                   "simulated": ["kernel32 (CreateFileW, ReadDirectoryChangesW, CancelIoEx, CloseHandle, GetFinalPathNameByHandleW)", "_watchdog_fsevents C extension (NativeEvent, run loop)", "renderers of native notifications", "scheduler, clock"]}
-    assumptions = ["renderer semantics as fixed in DESIGN.md 4/C20", "an FSEvents latency window never holds two renames of the same item (the renderer closes the window first)", "os.path is posixpath: Windows relative names are rendered with '/'", "Windows deletion flavour is not judged (the OS does not tell)"]
+    assumptions = ["renderer semantics as fixed in DESIGN.md 4/C20", "an FSEvents latency window never holds two renames of the same item (the renderer closes the window first)", "40% of the runs render sticky ItemCreated flags on later records of an item whose creation was already delivered", "os.path is posixpath: Windows relative names are rendered with '/'", "Windows deletion flavour is not judged (the OS does not tell)"]
     budget = {"quick": 25, "thorough": 420, "minimise": 60}
 
     ALLOW = {"mkfile", "write", "chmod", "unlink", "mkdir", "makedirs", "rmdir", "rmtree", "rename", "moveout", "movein_file", "movein_tree", "drain"}
@@ -504,7 +512,7 @@ class C20(Scenario):
             ops += [["drain"], ["rmroot"]]
         case = {"os": osk, "pre": pre, "ops": ops, "paced": paced, "unpaced": unpaced,
                 "watch": {"recursive": cfg.random() < 0.75, "root_kind": "str", "spelling": "abs"},
-                "cuts": [cfg.choice([0, 1, 2, 3]) for _ in range(3)], "parent_modified": cfg.random() < 0.5, "flush_each": paced or cfg.random() < 0.5,
+                "cuts": [cfg.choice([0, 1, 2, 3]) for _ in range(3)], "sticky_created": cfg.random() < 0.4, "parent_modified": cfg.random() < 0.5, "flush_each": paced or cfg.random() < 0.5,
                 "sched": draw_sched(cfg, line=False, pct_k=800, step_cap=300_000, horizon=3600, pct_share=0.2)}
         return case
 
